@@ -175,7 +175,7 @@ func (g *deep) pushPrim() {
 }
 
 func (g *deep) newCompound() {
-	switch g.r.Intn(8) {
+	switch g.r.Intn(9) {
 	case 0:
 		g.a.op(NEWARRAY0)
 		g.push(tArr)
@@ -197,6 +197,23 @@ func (g *deep) newCompound() {
 		g.a.pushInt(int64(g.r.Intn(3)))
 		g.a.op1(NEWARRAYT, []int{TBool, TInt, TBytes, TAny}[g.r.Intn(4)])
 		g.push(tArr)
+	case 6: // a struct inside a collection: APPEND / SETITEM / VALUES clone it
+		g.a.pushInt(int64(g.r.Intn(3)))
+		g.a.op(NEWSTRUCT)
+		if g.r.Intn(2) == 0 {
+			g.a.op(DUP, NEWARRAY0, PUSH1, PACKSTRUCT, APPEND) // nested struct
+		}
+		switch g.r.Intn(3) {
+		case 0:
+			g.a.op(PUSH1, PACK)
+			g.push(tArr)
+		case 1:
+			g.a.op(DUP, PUSH2, PACKSTRUCT)
+			g.push(tStruct)
+		default:
+			g.a.op(PUSH1, PUSH1, PACKMAP)
+			g.push(tMap)
+		}
 	default:
 		g.pack()
 	}
@@ -885,7 +902,7 @@ func genLimits(r *rand.Rand) []limitCase {
 	add("size-newbuffer", func(a *asm) { a.pushInt(131070); a.op(NEWBUFFER, DROP); a.pushInt(131071); a.op(NEWBUFFER) })
 	add("size-pushdata4", func(a *asm) { a.pushData(make([]byte, 131070)); a.op(DROP); a.pushData(make([]byte, 131071)) })
 	add("size-convert", func(a *asm) { a.pushInt(131070); a.op(NEWBUFFER); a.op1(CONVERT, TBytes); a.op(DUP, CAT) })
-	add("size-right", func(a *asm) { a.pushData([]byte("abc")); a.pushInt(2147483647); a.op(RIGHT) })
+	add("size-right", func(a *asm) { a.pushData([]byte("abc")); a.pushInt(100000000); a.op(RIGHT) })
 	add("size-substr", func(a *asm) { a.pushData([]byte("abc")); a.pushInt(2147483647); a.op(PUSH1, SUBSTR) })
 	// --- invocation depth: f() { if n>0 f(n-1) }
 	for _, n := range []int{1022, 1023, 1024, 1030} {
